@@ -362,3 +362,16 @@ func (n *Node) SyncTo(target uint32, o SyncOpts) SyncResult {
 	res.Errors = collector.take()
 	return res
 }
+
+// RunPlain syncs a scenario on a fresh database to its tip (no step mode) and
+// returns the result with the ledger dump.
+func RunPlain(sc *Scenario, dbPath string, opts NodeOpts) (SyncResult, Dump, error) {
+	n, err := OpenNode(dbPath, sc.Era, sc.Chain, opts)
+	if err != nil {
+		return SyncResult{}, nil, err
+	}
+	defer n.Close()
+	res := n.SyncTo(sc.Chain.Tip, SyncOpts{})
+	d, derr := DumpLedger(n.P.Pegnet.DB)
+	return res, d, derr
+}
